@@ -26,7 +26,10 @@ RULE = ('one run = one simulated hand on one of the 11 hand-history variants (si
         'fault injection: crash_phh - at a scheduler-chosen decision point only the bytes of the partial history survive, '
         'it is loaded, iterated to its last listed action and continued with the remaining records, and must finish '
         'with the same stacks; corrupt_history - one action line is replaced by one that can never apply and iterating '
-        'must raise instead of stopping early. non-trivial = hand with >= 8 action lines; distinct = distinct '
+        'must raise instead of stopping early; unknown_stacks - players who never ran out of chips get the starting '
+        'stack `inf` (the format\'s notation for a stack nobody knows) and the history must still round-trip and replay to '
+        'the same actions, payoffs and finite stacks. Operation commentary (words separated by runs of blanks, tabs, #, '
+        'quotes, backslashes) is part of the compared player actions. non-trivial = hand with >= 8 action lines; distinct = distinct '
         '(variant, chip type, compression, fault plan, action-verb sequence) digests')
 ASSUMPTIONS = [
     'strings exclude control characters, the sequence \'\'\' and a trailing quote (TOML literal strings cannot carry them)',
@@ -52,6 +55,21 @@ def gen_text(ch, label):
     return s or 'x'
 
 
+def gen_commentary(ch, k):
+    """Commentary of an operation: words separated by runs of blanks and tabs, with quotes, '#' and backslashes."""
+    if not ch.chance('cm.rich', 1, 2):
+        return 'note %d' % k
+    words = [gen_text(ch, 'cm.word').strip() or 'w' for _ in range(1 + ch.pick('cm.words', 3))]
+    seps = (' ', '  ', '\t', '   ', ' # ', ' \t ')
+    out = words[0]
+    for w in words[1:]:
+        out += seps[ch.pick('cm.sep', len(seps))] + w
+    out = out.replace("'''", "'x'")
+    while out.endswith("'") or out.endswith(' '):
+        out = out[:-1]
+    return out or 'w'
+
+
 def gen_value(ch, depth=0):
     kind = ch.pick('uf.kind', 5 if depth == 0 else 3)
     if kind == 0:
@@ -66,7 +84,7 @@ def gen_value(ch, depth=0):
 
 
 def abstract(ops):
-    """Player actions and cards of a log, ignoring mechanical steps and dealing granularity."""
+    """Player actions (with their commentary) and cards of a log, ignoring mechanical steps and dealing granularity."""
     acts = []
     hole = {}
     board = []
@@ -77,17 +95,17 @@ def abstract(ops):
         elif t == 'BoardDealing':
             board.extend(map(repr, op.cards))
         elif t == 'Folding':
-            acts.append(('f', op.player_index))
+            acts.append(('f', op.player_index, op.commentary))
         elif t == 'CheckingOrCalling':
-            acts.append(('cc', op.player_index, op.amount))
+            acts.append(('cc', op.player_index, op.amount, op.commentary))
         elif t == 'CompletionBettingOrRaisingTo':
-            acts.append(('cbr', op.player_index, op.amount))
+            acts.append(('cbr', op.player_index, op.amount, op.commentary))
         elif t == 'BringInPosting':
-            acts.append(('pb', op.player_index, op.amount))
+            acts.append(('pb', op.player_index, op.amount, op.commentary))
         elif t == 'StandingPatOrDiscarding':
-            acts.append(('sd', op.player_index, tuple(map(repr, op.cards))))
+            acts.append(('sd', op.player_index, tuple(map(repr, op.cards)), op.commentary))
         elif t == 'HoleCardsShowingOrMucking':
-            acts.append(('sm', op.player_index, tuple(map(repr, op.hole_cards))))
+            acts.append(('sm', op.player_index, tuple(map(repr, op.hole_cards)), op.commentary))
     return acts, hole, board
 
 
@@ -125,6 +143,59 @@ def replay_to_end(hh, what):
     return state
 
 
+class ZeroTracker(Monitor):
+    """Players whose stack was empty at some point of the hand (also mid-cascade)."""
+
+    def __init__(self):
+        self.zeroed = set()
+
+    def on_op(self, world, st, op):
+        for i, x in enumerate(st.stacks):
+            if not x:
+                self.zeroed.add(i)
+
+
+def inf_variant(ch, st, hh, zeroed, cfg, ctx):
+    """Unknown stacks: the format writes a stack nobody knows as `inf` (televised cash games).  Players who never
+    ran out of chips get an infinite starting stack.  The history with those stacks must survive the round trip
+    (equal object, identical text), and where it is still a legal hand - it is not when some wager of the hand was
+    sized by what such a player could call - the loaded history must replay exactly like the unsaved one, and like
+    the played hand as far as actions, payoffs and the finite stacks go."""
+    import dataclasses
+    import math
+    from decimal import Decimal
+    cands = [i for i in range(len(hh.starting_stacks)) if i not in zeroed]
+    chosen = [i for i in cands if ch.chance('inf.who', 1, 2)]
+    if not chosen:
+        return
+    big = Decimal('Infinity') if cfg['chip'] == 'decimal' else math.inf
+    stacks = [big if i in chosen else x for i, x in enumerate(hh.starting_stacks)]
+    h_inf = dataclasses.replace(hh, starting_stacks=stacks)
+    ctx.fault('unknown_stacks')
+    h2, _ = roundtrip(h_inf, 'history with unknown (infinite) stacks')
+    try:
+        direct = replay_to_end(h_inf, 'unsaved')
+    except Violation:
+        ctx.count('unknown_stacks_make_the_hand_illegal')
+        return
+    fin = [i for i in range(len(stacks)) if i not in chosen]
+    same_hand = (direct is not None and direct.status == st.status and abstract(direct.operations) == abstract(st.operations)
+                 and [direct.stacks[i] for i in fin] == [st.stacks[i] for i in fin] and list(direct.payoffs) == list(st.payoffs))
+    if not same_hand:
+        ctx.count('unknown_stacks_make_the_hand_illegal')
+        return
+    ctx.count('unknown_stacks_replayed')
+    end = replay_to_end(h2, 'history with unknown (infinite) stacks')
+    if end is None or end.status != direct.status or [end.stacks[i] for i in fin] != [direct.stacks[i] for i in fin] \
+            or list(end.payoffs) != list(direct.payoffs):
+        raise Violation('C16.inf', f'history with unknown stacks for players {chosen}: saved, loaded and replayed it ends with '
+                        f'stacks {end and end.stacks} payoffs {end and end.payoffs}; replayed without saving with stacks '
+                        f'{direct.stacks} payoffs {direct.payoffs}', rule='inf', decimal_reloaded_as_int=retyped(st, end))
+    if abstract(end.operations) != abstract(direct.operations):
+        raise Violation('C16.inf', 'history with unknown stacks: actions or cards differ after saving and loading',
+                        rule='inf_actions')
+
+
 def run(ch, ctx):
     cfg = gen_config(ch, BIAS)
     hidden_ok = cfg['variant'] in ('FT', 'NT', 'NS', 'PO', 'FO8')
@@ -143,8 +214,9 @@ def run(ch, ctx):
         for i in range(1 + ch.pick('uf.count', 3)):
             fields['_u%d' % i] = gen_value(ch)
     try:
-        world = World(ch, ctx, cfg, [], run_key=run_key_of(ch), dealer=dealer, runout_prefs=(None, 1),
-                      commentary_num=2, muck_num=1, partial_show=False,
+        zt = ZeroTracker()
+        world = World(ch, ctx, cfg, [zt], run_key=run_key_of(ch), dealer=dealer, runout_prefs=(None, 1),
+                      commentary_num=2, commentary_fn=gen_commentary, muck_num=1, partial_show=False,
                       profile=ch.choice('c16.profile', ('passive', 'balanced', 'balanced', 'aggressive')))
         st = world.state
         cut = None
@@ -165,6 +237,8 @@ def run(ch, ctx):
         hh2, text = roundtrip(hh, 'terminal history')
         end = replay_to_end(hh2, 'terminal history')
         compare(st, end, 'terminal history')
+        if ch.chance('c16.inf', 1, 3):
+            inf_variant(ch, st, hh, zt.zeroed, cfg, ctx)
         if cut is not None:
             resume(world, cut, ctx)
         if plan == 2:
